@@ -8,15 +8,16 @@ META = dict(
               "event lists (ghost history of votes: terms never decrease, one support per node and term; a leader holds a majority of votes of its term; quorum intersection); refutation "
               "witnesses by vm_compute for the other revisions; differential correspondence of the extracted model with the real raft.rs (build-time copy, virtual clock) after every "
               "event of adversarial event lists; direct two-leaders-in-one-term oracle on the implementation's own states",
-    level_text="The check reads the raft.rs it runs against and selects the revision of the model: whether vote_request adopts the request's term when it grants a vote, and whether "
-               "response() counts a Vote/Ok answer only for the candidate's current term (the two repairs fixes/C27-*.diff). "
-               "With BOTH repairs present (revision rr_fixed) the full property is a machine-checked theorem of the model, C27_election_safety: for every cluster size (the one-node "
+    level_text="The check reads the raft.rs it runs against and selects the revision of the model: whether vote_request adopts the request's term when it grants a vote, whether "
+               "response() counts a Vote/Ok answer only for the candidate's current term (the two election repairs fixes/C27-*.diff), and whether a leader counts only acknowledgements of its current term "
+               "(fixes/C28-count-only-current-term-acks.diff, a repair of the log replication that is irrelevant for elections: C27_election_safety_any_ack_revision). "
+               "With BOTH election repairs present (revisions rr_fixed and rr_before_ack_fix) the full property is a machine-checked theorem of the model, C27_election_safety: for every cluster size (the one-node "
                "cluster included) and every adversarial event list (delivery in any order, loss, duplication, arbitrary timer readings, client appends) no two nodes are ever leaders of "
                "one term; C27_fixed_no_election_classes: in that revision no node supports two candidates in one term, no candidate counts a vote of another term, no node "
                "acknowledges an Append below a term it voted in. On such a tree the classes double-vote and stale-vote-counted are no longer accepted as known findings: any two "
                "leaders in one term is a VIOLATION. "
                "WITHOUT the repairs (revision rr_pinned) the full property is machine-checked FALSE of the faithful model (C27_refuted_double_vote, C27_refuted_stale_vote: "
-               "two witness histories, both reproduced on the real code and recorded as known findings; C27_refuted_unless_both_repairs: each repair alone is not enough) and "
+               "two witness histories, both reproduced on the real code and recorded as known findings; C27_refuted_unless_both_repairs: every revision lacking one of the two election repairs violates it) and "
                "only the conditional theorem C27_partial applies (every history without the two decidable classes has at most one leader per term, any revision) together with "
                "C27_quorum_intersection (any cluster size). Which revision a run found is in the evidence notes and in input_distribution (raft-revision:...). "
                "The model of the selected revision is tied to the tree on every run by comparing every node's state, term, log, commit, peer table and the in-flight messages "
